@@ -89,6 +89,18 @@ def _more(o, a, b):
     elif o == "to_json":
         a.to_json()
         A.DimArray.from_json(a.to_json())
+    elif o == "to_json_nonjson_metadata":
+        import warnings
+        c = a.copy()
+        c.attrs["arr"] = np.arange(3)
+        c.attrs["npint"] = np.int64(3)
+        keys = sorted(c.attrs)
+        with warnings.catch_warnings():
+            warnings.simplefilter("ignore")
+            c.to_json()
+            c.to_jsondict() if hasattr(c, "to_jsondict") else None
+        if sorted(c.attrs) != keys or c.attrs["npint"] != 3 or c.attrs["arr"].tolist() != [0, 1, 2]:
+            raise AssertionError("to_json changed the metadata of the array it serialises: %s -> %s" % (keys, sorted(c.attrs)))
     elif o == "to_dataset":
         a.to_dataset(axis="y") if hasattr(a, "to_dataset") else None
     elif o == "percentile":
@@ -109,6 +121,7 @@ def _more(o, a, b):
         ds = _ds_of(a, a2 * 2)
         ds2 = _ds_of(a * 3, a2 * 4)
         watch = [ds, ds2]
+        dsnap = [deep_snapshot(ds), deep_snapshot(ds2)]
         if o == "ds_take":
             ds.take(indices={"x": [10, 30]})
         elif o == "ds_mean":
@@ -137,6 +150,14 @@ def _more(o, a, b):
             da.stack_ds([ds, ds2], axis="k")
         elif o == "ds_concatenate":
             da.concatenate_ds([ds, ds2], axis="x")
+        elif o == "ds_copy_then_relabel_rename":
+            c = ds.copy()
+            c.set_axis([1, 2, 3], axis="x")
+            c.rename_axes({"y": "yy"})
+            c2 = ds.rename_keys({"a": "aa"}, inplace=False)
+            c2.axes["x"][0] = 55
+        if o != "ds_copy_then_mutate" and [deep_snapshot(ds), deep_snapshot(ds2)] != dsnap:
+            raise AssertionError("%s changed the Dataset it was applied to (labels, names, values or metadata of the operand Dataset)" % o)
         return watch
     elif o in ("reshape_indexed_group", "flatten_indexed_group"):
         # an array whose axis is the plain (sampled) remainder of a grouped axis - its name contains a comma
